@@ -83,6 +83,11 @@ theorem unapply_lspec (hS : LSim k R) (fuel : Nat) (hp : Heap) (l : LV) (x : Val
   | cons a t' => exact ⟨t, hp2, lg2, by simp [unapply, bind_ok h1, bind_ok h2], hR2⟩
   | seq ys => exact ⟨t, hp2, lg2, by simp [unapply, bind_ok h1, bind_ok h2], hR2⟩
   | adaptor a b => exact ⟨t, hp2, lg2, by simp [unapply, bind_ok h1, bind_ok h2], hR2⟩
+  | nilIface =>
+    -- the nil interface denotes nothing: `Head()` panics
+    cases n with
+    | zero => simp [LL.head, IM.panic] at h1
+    | succ m => simp [LL.head, IM.panic] at h1
 
 /-- `Unapply` of an empty `Nil` / `Cons`-free / `Seq` list panics (as `Head()` does), nothing changes -/
 theorem unapply_empty_plain (fuel : Nat) (l : LV) (hp : Heap) (lg : Log) (h : plainDen l = some []) :
@@ -94,6 +99,7 @@ theorem unapply_empty_plain (fuel : Nat) (l : LV) (hp : Heap) (lg : Log) (h : pl
     simp [plainDen] at h; subst h
     exact ⟨"List.Empty", by simp [unapply, LL.head, IM.panic, bind_apply], Or.inr rfl⟩
   | adaptor a b => simp [plainDen] at h
+  | nilIface => simp [plainDen] at h
 
 theorem pres_unapply : ∀ fuel l, Pres (unapply fuel l) := by
   intro fuel l
@@ -106,6 +112,7 @@ theorem pres_unapply : ∀ fuel l, Pres (unapply fuel l) := by
     | cons a t => exact Pres.bind (hA.head _) (fun _ => Pres.bind (hA.tail _) (fun _ => Pres.pure _))
     | seq ys => exact Pres.bind (hA.head _) (fun _ => Pres.bind (hA.tail _) (fun _ => Pres.pure _))
     | adaptor a b => exact Pres.bind (hA.head _) (fun _ => Pres.bind (hA.tail _) (fun _ => Pres.pure _))
+    | nilIface => exact Pres.bind (hA.head _) (fun _ => Pres.bind (hA.tail _) (fun _ => Pres.pure _))
 
 theorem pres_nonEmpty (fuel : Nat) (l : LV) : Pres (LX.nonEmpty fuel l) :=
   Pres.bind ((presAll fuel).isEmpty l) (fun _ => Pres.pure _)
@@ -176,6 +183,7 @@ theorem pres_foreachL (f : Val → GoM Unit) : ∀ fuel l, Pres (foreachL f fuel
     | cons a t => exact Pres.bind (Pres.liftG _) (fun _ => ih t)
     | seq ys => exact pres_seqForeach f ys
     | adaptor a b => exact pres_foreachCursor f n _
+    | nilIface => exact Pres.panic _
 
 theorem pres_toSeqM : ∀ fuel l acc, Pres (toSeqM fuel l acc) := by
   intro fuel
@@ -188,6 +196,7 @@ theorem pres_toSeqM : ∀ fuel l acc, Pres (toSeqM fuel l acc) := by
     | cons a t => exact ih t _
     | seq ys => exact Pres.pure _
     | adaptor a b => exact pres_toSeq n _ _
+    | nilIface => exact Pres.panic _
 
 /-- `Foreach` on the heap-free representations with a callback that appends `ev a` to the log: the
     callback sees exactly the elements, in order, once each; the heap is not touched. -/
@@ -222,6 +231,7 @@ theorem foreachL_plain (f : Val → GoM Unit) (ev : Val → List Event)
     obtain ⟨n, rfl⟩ := Nat.exists_eq_succ_of_ne_zero (by omega : fuel ≠ 0)
     simp [foreachL, hseq]
   | adaptor a b => intro xs h; simp [plainDen] at h
+  | nilIface => intro xs h; simp [plainDen] at h
 
 /-! ## `FoldFuture` -/
 
